@@ -96,10 +96,21 @@ def r2_typestate(ctx):
             if others:
                 ctx.violation("C02.R2", f, cfg.stmt[others[0]], "another state write sits between the proposal and its decision (the snapshot of the proposal is overwritten)")
                 continue
-            dn, dc, dkind, dvar = decs[0]
-            if dvar is None:
-                ctx.unknown("C02.R2", f, dc, "decision result is not bound to a local name")
+            # a decision whose outcome is thrown away cannot steer anything: the only sound continuation is an unconditional full revert
+            thrown = [d for d in decs if d[3] is None]
+            bad_thrown = False
+            for dn, dc, dkind, dvar in thrown:
+                full = [n for n, c in sf.reverts if not c.args and not c.keywords and cfg.reachable(dn, n)]
+                if full and all(cfg.all_paths_pass(dn, full, end=e) for e in ends):
+                    ctx.ok("C02.R2", f, dc, "outcome not used, and every path from here reverts the whole proposal")
+                else:
+                    bad_thrown = True
+                    ctx.violation("C02.R2", f, dc, f"the outcome of `{U(dc)[:60]}` is thrown away and a path from it reaches the next proposal / the exit without `state.revert()`: "
+                                  "the proposal stays in the state although it was not accepted")
+            decs = [d for d in decs if d[3] is not None]
+            if bad_thrown or not decs:
                 continue
+            dn, dc, dkind, dvar = decs[0]
             revs = [(n, c) for n, c in sf.reverts if cfg.reachable(dn, n)]
             if not revs:
                 ctx.violation("C02.R2", f, dc, "no state.revert after the decision: a rejected proposal stays in the state")
